@@ -12,8 +12,13 @@ use std::borrow::Cow;
 use std::convert::Infallible;
 use std::fmt::Display;
 
-const KEYWORDS: [&str; 9] = [
-    "use", "mod", "const", "type", "pub", "enum", "struct", "impl", "trait",
+/// Strict and reserved keywords of the Rust 2021 edition (lower case; a field name can never be `Self`)
+const KEYWORDS: [&str; 50] = [
+    "as", "async", "await", "break", "const", "continue", "crate", "dyn", "else", "enum", "extern",
+    "false", "fn", "for", "if", "impl", "in", "let", "loop", "match", "mod", "move", "mut", "pub",
+    "ref", "return", "self", "static", "struct", "super", "trait", "true", "type", "unsafe", "use",
+    "where", "while", "abstract", "become", "box", "do", "final", "macro", "override", "priv",
+    "try", "typeof", "unsized", "virtual", "yield",
 ];
 
 pub trait GeneratorSupplement<T> {
